@@ -73,15 +73,15 @@ Names(s) == [i \in DOMAIN s |-> TokenTable[s[i]].n]
 Next == /\ ~done /\ done' = TRUE /\ job' = job
         /\ \A s \in SeqsOf(job) : PrintT("@@" \o ToJson([k |-> job.k, toks |-> Names(s), out |-> P(s)]))
 
-\* ---- laws (invariants; evaluated once per job state)
-PairLaw == job.k = "pair" => \A b \in BinIdx :
+\* ---- laws (invariants; evaluated on the successor state of every job only: TLC evaluates the invariants of initial states in one thread)
+PairLaw == done /\ job.k = "pair" => \A b \in BinIdx :
    LET a == job.i  r == P(Pair(a, b)) IN
    /\ r.status = "tree" /\ r.tree = RefTree3(TokenTable[PA], TokenTable[a], TokenTable[ONE], TokenTable[b], TokenTable[DOT])
-ParenLaw == job.k = "pair" => \A b \in BinIdx :
+ParenLaw == done /\ job.k = "pair" => \A b \in BinIdx :
    LET a == job.i  r == P(Pair(a, b)) IN
    /\ P(<<LP>> \o Pair(a, b) \o <<RP>>) = r
    /\ P(<<LP, PA, RP, a, LP, ONE, RP, b, LP, DOT, RP>>) = r
    /\ (IF TokenTable[a].prec > TokenTable[b].prec THEN P(<<LP, PA, a, ONE, RP, b, DOT>>) ELSE P(<<PA, a, LP, ONE, b, DOT, RP>>)) = r
-RejectLaw == job.k = "exh" => \A s \in SeqsOf(job) : ~Balanced(Toks(s)) => P(s).status # "tree"
-ArityLaw == \A s \in SeqsOf(job) : P(s).status = "tree" => ArityOK(P(s).tree)
+RejectLaw == done /\ job.k = "exh" => \A s \in SeqsOf(job) : ~Balanced(Toks(s)) => P(s).status # "tree"
+ArityLaw == done => \A s \in SeqsOf(job) : P(s).status = "tree" => ArityOK(P(s).tree)
 =============================================================================
